@@ -398,6 +398,14 @@ Definition pred_c07 (g : ghost) (w : world) (a : action) (O : oracle) (w' : worl
 Definition used_before (g : ghost) (U x : bytes) : bool :=
   existsb (fun p => beqb (fst p) U && beqb (snd p) x) (g_used g).
 
+(* the account whose login this step parked as pending a second factor, if it did *)
+Definition parked_here (pre post : amap) : option bytes :=
+  match alookup k_totp_pending post, alookup k_sms_pending post with
+  | Some U, _ => if obytes_eq (alookup k_totp_pending pre) (Some U) then None else Some U
+  | None, Some U => if obytes_eq (alookup k_sms_pending pre) (Some U) then None else Some U
+  | None, None => None
+  end.
+
 Definition pred_c12 (g : ghost) (w : world) (a : action) (O : oracle) (w' : world) (i : iobs) : list Z :=
   (if forallb (fun u => (length (if bempty (u_otps u) then [] else bsplit ","%byte (u_otps u)) <=? 5)%nat) (io_users i)
    then [] else [1125]) ++
@@ -407,6 +415,17 @@ Definition pred_c12 (g : ghost) (w : world) (a : action) (O : oracle) (w' : worl
       let vals := values_of r in
       let before := uid_in (sess_of w b) in
       let after := uid_in (io_sess i) in
+      (* a one-time password that was accepted as the first factor is spent too: the login it enabled
+         completes at the second-factor step *)
+      (match q_route r, parked_here (sess_of w b) (io_sess i) with
+       | ROtpLogin, Some U =>
+           match iuser_of i U with
+           | Some u' => let x := aget f_password vals in
+                        (if used_before g U x then [112] else []) ++ (if otp_valid u' x then [1127] else [])
+           | None => []
+           end
+       | _, _ => []
+       end) ++
       if obytes_eq before after then [] else
       match after with
       | None => []
